@@ -118,11 +118,17 @@ func (y *sys) heldCount() int {
 // settle waits until neither the event log nor the server's request count has
 // moved for a while.
 func (y *sys) settle() {
-	deadline := time.Now().Add(3 * time.Second)
+	deadline := time.Now().Add(4 * time.Second)
+	stable := 0
 	for {
 		a, b := y.rec.Mark(), y.npubNow()
-		time.Sleep(70 * time.Millisecond)
-		if (y.rec.Mark() == a && y.npubNow() == b) || time.Now().After(deadline) {
+		time.Sleep(50 * time.Millisecond)
+		if y.rec.Mark() == a && y.npubNow() == b {
+			stable++
+		} else {
+			stable = 0
+		}
+		if stable >= 2 || time.Now().After(deadline) {
 			return
 		}
 	}
@@ -213,6 +219,10 @@ var subParams = &opcua.SubscriptionParameters{Interval: 20 * time.Millisecond, M
 func (y *sys) apply(op string) bool {
 	switch op {
 	case "S":
+		// with the connection down CreateSubscription fails before any signalling
+		if y.c.State() != opcua.Connected {
+			return false
+		}
 		y.mu.Lock()
 		y.subStarted++
 		y.mu.Unlock()
@@ -471,7 +481,7 @@ func (e *env) run(ops []string) {
 	var infra, confirmed, trace string
 	var dis *h.Disagreement
 	var fail *h.OracleFailure
-	for attempt := 0; attempt < 2; attempt++ {
+	for attempt := 0; attempt < 3; attempt++ {
 		infra, dis, fail, confirmed, trace = e.scenario(ops)
 		if infra == "" && dis == nil {
 			break
